@@ -220,7 +220,7 @@ impl RustDocument {
         wanted: Wanted,
     ) -> Option<Rc<RustNode>> {
         #[cfg(feature = "verif")]
-        let mut verif_guard = crate::verif::LookupGuard::start(xml_name, namespace);
+        let mut verif_guard = crate::verif::LookupGuard::start(xml_name, namespace, matches!(wanted, Wanted::Type));
         let rust_node = self.nodes.iter().chain(self.known_nodes.iter()).find(|node| {
             node.rust_type.xml_name().is_some_and(|n| n == xml_name)
                 && node.in_namespace.as_deref() == namespace
@@ -246,6 +246,8 @@ impl RustDocument {
         verif_guard.hit("tree", &alt_node);
         let alt_node: Rc<RustNode> = alt_node.into();
         if !self.resolving.contains(&key) {
+            #[cfg(feature = "verif")]
+            crate::verif::memo_insert(xml_name, matches!(wanted, Wanted::Type));
             self.forward_nodes.insert(key, alt_node.clone());
         }
         Some(alt_node)
@@ -359,6 +361,8 @@ fn try_to_find_node_by_xml_name_in_xml_doc<'n>(
                 // know that the component exists, so do not convert it again
                 let key = (xml_name.to_string(), wanted);
                 if doc.resolving.contains(&key) {
+                    #[cfg(feature = "verif")]
+                    crate::verif::placeholder(xml_name, matches!(wanted, Wanted::Type));
                     return Ok(wanted.placeholder(xml_name, doc));
                 }
 
